@@ -5,6 +5,7 @@ import ast
 
 from ..algebra import NC, NotPolynomial, Poly, ToNC, ToPoly
 from ..amatch import AM
+from ..flow import expand
 from ..fold import table
 from ..report import AnalysisError
 from ..srcmodel import norm
@@ -253,27 +254,39 @@ def rule_d(ctx):
     body_nodes = list(ast.walk(f.node))
     ok_vd = am.has(f.node, "voxels_dst = self.coordinatesystem_dst.voxels") is not None
     ctx.need(ok_vd, "correct_array: destination voxels not found")
-    s1 = am.has(f.node, "transformation_input = voxels_dst.to_voxel_center().to(self.transformation.input_dtype, self.coordinatesystem_dst)")
+    # the stages may be named or written in place: they are declared as template-level temporaries
+    am.let("t_in", "voxels_dst.to_voxel_center().to(self.transformation.input_dtype, self.coordinatesystem_dst)")
+    am.let("t_out", "self.transformation.inverse(t_in)")
+    s1 = am.has(f.node, "voxels_dst.to_voxel_center().to(self.transformation.input_dtype, self.coordinatesystem_dst)")
     ctx.ob(R, f.qname, "stage 1: destination voxels -> voxel centres -> transformation input type in the destination system", s1 is not None, "", f.node)
-    s2 = am.has(f.node, "transformation_output = self.transformation.inverse(transformation_input)")
+    s2 = am.has(f.node, "self.transformation.inverse(t_in)")
     ctx.ob(R, f.qname, "stage 2: the inverse transformation is applied to stage 1", s2 is not None, "", f.node)
-    s3 = am.has(f.node, "voxels_src = transformation_output.to_voxel(self.coordinatesystem_src)")
+    s3 = am.has(f.node, "voxels_src = t_out.to_voxel(self.coordinatesystem_src)")
     ctx.ob(R, f.qname, "stage 3: converted to voxels of the source system", s3 is not None, "", f.node)
     ok_dim = am.has(f.node, "dim = self.coordinatesystem_src.dim") is not None
-    mk = (am.has(f.node, "valid_voxels = np.all(np.logical_and(voxels_src >= np.zeros(dim, dtype=int), voxels_src < self.coordinatesystem_src.shape), axis=1)")
-          or am.has(f.node, "valid_voxels = np.all(np.logical_and(voxels_src < self.coordinatesystem_src.shape, voxels_src >= np.zeros(dim, dtype=int)), axis=1)"))
+    MASKS = ("np.all(np.logical_and(voxels_src >= np.zeros(dim, dtype=int), voxels_src < self.coordinatesystem_src.shape), axis=1)",
+             "np.all(np.logical_and(voxels_src < self.coordinatesystem_src.shape, voxels_src >= np.zeros(dim, dtype=int)), axis=1)")
+    mk, mk_t = None, None
+    for t_ in MASKS:
+        mk = am.has(f.node, t_)
+        if mk is not None:
+            mk_t = t_
+            break
     ctx.ob(R, f.qname, "validity mask is two-sided: 0 <= source voxel < source shape on every axis", mk is not None and ok_dim, str(am.show()), f.node)
+    n_all = sum(1 for c in ast.walk(f.node) if isinstance(c, ast.Call) and norm(c.func) == "np.all")
+    if mk is not None:
+        am.let("valid", mk_t)
     warp = am.has(f.node, f"array_dst[tuple((voxels_dst[self.cache.valid_voxels, j] for j in range(dim)))] = {arr}[tuple((self.cache.voxels_src[self.cache.valid_voxels, j] for j in range(dim)))]")
     ctx.ob(R, f.qname, "the same mask selects destination voxels and source voxels in the assignment", warp is not None, "", f.node)
     alloc = am.has(f.node, f"shape = (*self.coordinatesystem_dst.shape, *list({arr}.shape)[dim:])") is not None and am.has(f.node, f"array_dst = np.zeros(shape, dtype={arr}.dtype)") is not None
     n_alloc = len([s_ for s_ in body_nodes if isinstance(s_, ast.Assign) and isinstance(s_.targets[0], ast.Name) and s_.targets[0].id == (am.actual("array_dst") or "array_dst")])
     ctx.ob(R, f.qname, "output is zero-initialised (once, unconditionally) with destination spatial shape and source payload shape", alloc and n_alloc == 1, f"{n_alloc} definition(s) of the output array", f.node)
-    cache = am.has(f.node, "self.cache = Cache(voxels_src=voxels_src, valid_voxels=valid_voxels)")
-    ctx.ob(R, f.qname, "cache stores exactly the source voxels and the mask", cache is not None, "", f.node)
+    cache = am.has(f.node, "self.cache = Cache(voxels_src=voxels_src, valid_voxels=valid)") if mk is not None else None
+    ctx.ob(R, f.qname, "cache stores exactly the source voxels and the (one) mask", cache is not None and n_all == 1, "", f.node)
     dep = set()
     for st in (s1, s2, s3, mk):
         if st is not None:
-            dep |= {x.id for x in ast.walk(st.value) if isinstance(x, ast.Name)}
+            dep |= {x.id for x in ast.walk(expand(f.node, st.value if isinstance(st, ast.Assign) else st)) if isinstance(x, ast.Name)}
     ctx.ob(R, f.qname, "cached warp does not depend on the array passed to the call", arr not in dep, str(sorted(dep)), f.node)
     ctx.floor(R, 1)
 
@@ -294,11 +307,9 @@ def rule_e(ctx):
     ctx.ob(R, f.qname, "dimensions and origin come from coordinatesystem_dst", st == {"dimensions": "self.coordinatesystem_dst.dimensions", "origin": "self.coordinatesystem_dst._coordinate_of_origin_voxel"}, str(st), f.node)
     c = m.func(CTR, "CoordinateTransformation.__call__")
     p = c.params[1]
-    rets = [norm(r.value) for r in ast.walk(c.node) if isinstance(r, ast.Return)]
-    env = {norm(s.targets[0]): norm(s.value) for s in c.node.body if isinstance(s, ast.Assign)}
-    arr = [k for k, v in env.items() if v == f"self.affine_correction({p}, overwrite=False)"]
-    meta = [k for k, v in env.items() if v == f"self.correct_metadata({p})"]
-    ctx.ob(R, c.qname, "result = type(image)(corrected array, **destination metadata), input not overwritten", bool(arr) and bool(meta) and rets == [f"type({p})({arr[0]}.img, **{meta[0]})"], f"{rets} {env}", c.node)
+    rets = [norm(expand(c.node, r.value)) for r in ast.walk(c.node) if isinstance(r, ast.Return) and r.value is not None]
+    ctx.ob(R, c.qname, "result = type(image)(corrected array, **destination metadata), input not overwritten",
+           rets == [f"type({p})(self.affine_correction({p}, overwrite=False).img, **self.correct_metadata({p}))"], str(rets), c.node)
     g = m.func(GEN, "GeneralizedPerspectiveCorrection.correct_metadata")
     rets = [r.value for r in ast.walk(g.node) if isinstance(r, ast.Return)]
     d = {k.value: norm(v) for k, v in zip(rets[0].keys, rets[0].values)} if rets and isinstance(rets[0], ast.Dict) else {}
